@@ -169,7 +169,14 @@ class SimConnection(sqlite3.Connection):
         return r
 
 
+REDIRECT = {}   # realpath of a file that must never be opened -> scratch copy (the packaged default.db)
+
+
 def sim_connect(database, *args, **kwargs):
+    try:
+        database = REDIRECT.get(os.path.realpath(os.fspath(database)), database)
+    except TypeError:
+        pass
     kwargs.setdefault("factory", SimConnection)
     STATE["connections"] += 1
     return ORIG_CONNECT(database, *args, **kwargs)
